@@ -32,7 +32,7 @@ RULE = ('(A) route table x {existing, missing-piece streams: clear-only, no audi
         '(part, route or operator, option name, value class, outcome class).')
 ASSUMPTIONS = [
     'the only legitimate 5xx are synthetic ones asked for through {v,a,t,m}err; part (A) therefore never sends a 5xx code in those options',
-    'termination: 6 s wall watchdog = suspect only; verdict = exceeding 3,000,000 line/jump events when re-run alone (legitimate requests need < 150,000)',
+    'termination: 6 s wall watchdog = suspect only; verdict = exceeding 100,000,000 line/jump events when re-run alone (the heaviest legitimate request - a multi-period manifest with the maximum 24 h window - needs about 10,000,000); a suspect that finishes within the budget is counted as slow-but-terminating',
     'parser: returning or raising an Exception subclass within the budget and within 64 x input + 64 MiB of traced allocations (15 s wall suspect, 40,000,000 line/jump events verdict) is a reported parse error',
     'POST /media/inspect needs Flask\'s optional async support (asgiref), absent from this environment: its RuntimeError is not judged; the outbound-fetch url field is never used (no network)',
     'shims + werkzeug test client as HTTP boundary',
@@ -113,7 +113,7 @@ class Fuzz:
         if outcome == 'timeout':
             res.count(f'{part}.suspects')
             # rebuild nothing: re-run alone under the deterministic budget
-            r2 = guard.run_with_wall(lambda: guard.run_with_line_budget(go, 3_000_000), 60.0)
+            r2 = guard.run_with_wall(lambda: guard.run_with_line_budget(go, 100_000_000), 900.0)
             if r2[0] == 'ok' and r2[1][0] == 'exceeded':
                 stack = r2[1][1]
                 func = 'unknown'
@@ -121,13 +121,16 @@ class Fuzz:
                     if '/dashlive/' in line and ', in ' in line:
                         func = line.rsplit(', in ', 1)[1].strip()
                 res.violation(f'request-does-not-terminate-in-{func}',
-                              f'{method} {url}: more than 3,000,000 line/jump events (legitimate requests: < {self.legit_lines}); '
+                              f'{method} {url}: more than 100,000,000 line/jump events (legitimate requests: < {self.legit_lines}); '
                               f'spinning in:\n{stack[-900:]}', replay)
             elif r2[0] == 'timeout':
                 res.violation('request-does-not-terminate-in-native-code',
-                              f'{method} {url}: no Python line events but > 60 s\n{r2[1][-600:]}', replay)
+                              f'{method} {url}: no Python line events but > 900 s\n{r2[1][-600:]}', replay)
             else:
-                res.inconclusive.append(f'wall watchdog fired but the request finished within the line budget: {url}')
+                # slow (or a loaded machine) but it terminates within the deterministic budget: bounded
+                res.count(f'{part}.slow_but_terminating')
+                if len(res.notes) < 5:
+                    res.notes.append(f'slow but terminating: {url}')
             return None
         r = value
         if r.status_code >= 500:
@@ -422,7 +425,7 @@ class Fuzz:
                 res.violation('parser-does-not-terminate', f'{cname} {op} lazy={lazy}: > 40,000,000 events\n{r2[1][1][-700:]}', rp)
                 cls = 'hang'
             else:
-                res.inconclusive.append(f'parser watchdog fired but finished within budget: {cname} {op}')
+                res.count('b.slow_but_terminating')     # bounded: finished within the deterministic budget
         elif isinstance(value, BaseException) and not isinstance(value, Exception):
             res.violation(f'parser-raises-{type(value).__name__}', f'{cname} {op} lazy={lazy}: {value!r}', rp)
             cls = 'baseexception'
